@@ -37,7 +37,9 @@
    PROVED, WHICH outcome a completion carries (proofs/MachineC05O.v), same generality (every program,
    record of knobs, history, fuel):
    - O1, stable outcome: no transition touches a batch-item entry that has an outcome
-     (C05_item_outcome_never_overwritten_step / _run); every EvItemDone h o in the trace is recorded in
+     (C05_item_outcome_never_overwritten_step / _run), and no transition changes the outcome of ANY
+     computed future - task, item, lazy or constant future (C05_computed_outcome_never_changes_step /
+     _run); every EvItemDone h o in the trace is recorded in
      the heap: the entry of h is mkFut (Some o) (KItem ...) in the state reached by the emitting
      transition (C05_announced_outcome_is_stored_step), after any number of further transitions
      (C05_announced_outcome_stays_stored_run) and in the final state of run_case
@@ -75,8 +77,7 @@
    flush_batch, so there is no via-cancel outcome to state); the scripted action of an item is visible
    in the heap entry (KItem kind idx key a), not in the trace, so the O2 trace theorems speak about
    the trace together with the final heap (final_state P fuel ps = snd (run_history P fuel ps (st0 P)),
-   whose reversed trace is snd (run_case P fuel ps)); outcomes of futures that are not batch items
-   (tasks, lazy futures) are not covered by the stability statement. *)
+   whose reversed trace is snd (run_case P fuel ps)). *)
 From Asynq Require Import Machine proofs.MachineC05 proofs.MachineTrace proofs.MachineC05T proofs.MachineC05P
   proofs.MachineC05O.
 
@@ -323,6 +324,20 @@ Theorem C05_item_outcome_never_overwritten_run : forall P n c, Inv (c_st c) ->
   forall h f, get h (c_st c) = Some f -> is_itemk f -> f_out f <> None -> get h (c_st (run P n c)) = Some f.
 Proof. exact stab_run. Qed.
 Print Assumptions C05_item_outcome_never_overwritten_run.
+
+(* every future: a transition never changes the outcome of a computed future (its kind field may change:
+   a task's bookkeeping is updated) *)
+Theorem C05_computed_outcome_never_changes_step : forall P c, dom (c_st c) ->
+  forall h f, get h (c_st c) = Some f -> f_out f <> None ->
+  exists f', get h (c_st (step P c)) = Some f' /\ f_out f' = f_out f.
+Proof. exact pres_step. Qed.
+Print Assumptions C05_computed_outcome_never_changes_step.
+
+Theorem C05_computed_outcome_never_changes_run : forall P n c h,
+  Inv (c_st c) -> computed h (c_st c) = true ->
+  computed h (c_st (run P n c)) = true /\ outcome_of h (c_st (run P n c)) = outcome_of h (c_st c).
+Proof. exact run_outcome_never_changes. Qed.
+Print Assumptions C05_computed_outcome_never_changes_run.
 
 (* [OutInv s] (proofs/MachineC05O.v) unfolds to:  forall h o, In (EvItemDone h o) (trace s) ->
    exists kind idx key a, get h s = Some (mkFut (Some o) (KItem kind idx key a)) *)
